@@ -20,6 +20,7 @@ import (
 	"go/constant"
 	"go/token"
 	"go/types"
+	"sort"
 
 	"golang.org/x/tools/go/ssa"
 )
@@ -1298,33 +1299,53 @@ func (a *arityEnv) run(list []ast.Stmt) string {
 }
 
 func ruleBArityMin(w *World, r *Report) {
-	r.rule("B-ARITY", "minimum argument counts: for every function name XPath gives required arguments, the dispatch clause is interpreted for each smaller argument count n (only len(args), integer constants and the dispatched name are evaluated): the clause must reach an error return, or index the argument list at a constant position >= n (an index fault inside the builder's recover), before it can produce a query")
-	si := w.functionSwitch()
-	if si == nil {
-		r.bad("ANCHOR", "B-ARITY", "", "function dispatch not found")
+	r.rule("B-ARITY", "minimum argument counts: for every function name XPath gives required arguments, the function builder is followed by constant propagation for each smaller argument count: every path must end in a non-nil error or a run-time panic (an index fault inside the builder's recover); none may produce a query")
+	fb, br, err := w.functionBuilds()
+	if err != nil {
+		r.bad("ANCHOR", "B-ARITY", "", err.Error())
 		return
 	}
+	pos := w.pos(br.FuncB.Pos())
 	n := 0
-	for _, ci := range si.Cases {
-		for _, lab := range ci.Labels {
-			min, ok := xpathMinArity[lab]
-			if !ok {
-				continue
+	var names []string
+	for name := range xpathMinArity {
+		names = append(names, name)
+	}
+	sort.Strings(names)
+	for _, name := range names {
+		min := xpathMinArity[name]
+		if len(fb[fnBuildKey{name, min}]) == 0 {
+			continue
+		}
+		bound := false
+		for _, o := range fb[fnBuildKey{name, min}] {
+			if o.Accepted {
+				bound = true
 			}
-			n++
-			key := "min:" + lab
-			var accepted []int
-			for k := 0; k < min; k++ {
-				env := &arityEnv{w: w, n: int64(k), label: lab}
-				if res := env.run(ci.Clause.Body); res != "rejected" {
+		}
+		if !bound {
+			continue // not a function of this engine
+		}
+		n++
+		key := "min:" + name
+		var accepted, unknown []int
+		for k := 0; k < min; k++ {
+			for _, o := range fb[fnBuildKey{name, k}] {
+				if o.Accepted || o.NilNil {
 					accepted = append(accepted, k)
 				}
+				if o.Unknown {
+					unknown = append(unknown, k)
+				}
 			}
-			if len(accepted) == 0 {
-				r.ok("B-ARITY", key, w.pos(ci.Clause.Pos()), fmt.Sprintf("fewer than %d arguments are rejected", min))
-			} else {
-				r.bad("B-ARITY", key, w.pos(ci.Clause.Pos()), fmt.Sprintf("%s() compiles with %v argument(s); XPath requires at least %d: an expression damaged by removing required arguments is accepted", lab, accepted, min))
-			}
+		}
+		switch {
+		case len(accepted) > 0:
+			r.bad("B-ARITY", key, pos, fmt.Sprintf("%s() compiles with %v argument(s); XPath requires at least %d: an expression damaged by removing required arguments is accepted", name, dedupInts(accepted), min))
+		case len(unknown) > 0:
+			r.undec("B-ARITY", key, pos, fmt.Sprintf("%s() with %v argument(s): the builder could not be followed to a result", name, dedupInts(unknown)))
+		default:
+			r.ok("B-ARITY", key, pos, fmt.Sprintf("fewer than %d arguments are rejected", min))
 		}
 	}
 	if n < 15 {
